@@ -103,7 +103,14 @@ def gen(rng: random.Random, k: int, tier: str) -> dict:
     ops.append({"op": "verify", "as": "dict"})
     ops.append({"op": "verify", "as": "workspace"})
     for n, t in zip(names, tuples):
-        ops.append({"op": "apply", "key": _enc_key(rng.choice([n, tuple(t), list(t)])), "as": rng.choice(["dict", "workspace"])})
+        ops.append({"op": "apply", "key": _enc_key(rng.choice([n, tuple(t), list(t)])), "as": rng.choice(["dict", "workspace"]),
+                    "scribble": rng.random() < 0.5})
+    # the user edits a returned workspace in place, then applies the same patches again: every application starts
+    # from the verified background and the recorded patch, whatever was done to earlier results
+    for n, t in zip(names, tuples):
+        if rng.random() < 0.6:
+            ops.append({"op": "apply", "key": _enc_key(rng.choice([n, tuple(t), list(t)])), "as": rng.choice(["dict", "workspace"]),
+                        "scribble": rng.random() < 0.5})
     # --- fault enumeration over the workspace document ---------------------
     blocks = []
     for path, v in G.leaves(ws):
@@ -154,6 +161,31 @@ def simplify(op):
                 ps = copy.deepcopy(op["ps"])
                 del ps["patches"][i]
                 yield dict(op, ps=ps)
+
+
+def _scribble(node):
+    """Edit every container reachable from a returned workspace in place."""
+    if isinstance(node, dict):
+        for k in list(node):
+            v = node[k]
+            if isinstance(v, (dict, list)):
+                _scribble(v)
+            elif isinstance(v, bool) or v is None:
+                node[k] = 7
+            elif isinstance(v, (int, float)):
+                node[k] = v * 3 + 1
+            elif isinstance(v, str):
+                node[k] = v + "~"
+        node["scribbled"] = [1]
+    elif isinstance(node, list):
+        for i, v in enumerate(node):
+            if isinstance(v, (dict, list)):
+                _scribble(v)
+            elif isinstance(v, (int, float)) and not isinstance(v, bool):
+                node[i] = v * 3 + 1
+            elif isinstance(v, str):
+                node[i] = v + "~"
+        node.append(12345)
 
 
 class World:
@@ -376,7 +408,7 @@ class World:
         for i, (n, t) in enumerate(zip(names, tuples)):
             self.ref[n] = i
             self.ref[t] = i
-        self.ref_patches = doc["patches"]
+        self.ref_patches = json.loads(self.ps_text)["patches"]   # the reference never shares objects with what pyhf was given
         self.loaded_digests = dict(doc["metadata"]["digests"])
         return "loaded"
 
@@ -509,6 +541,10 @@ class World:
                 ctx.check(core.canon(dict(got)) == core.canon(expected), "apply", dict(sig, got="wrong_result"),
                           lambda: "apply result differs from reference application of the RFC-6902 list")
                 ctx.probe("apply_ok")
+                if op.get("scribble") and isinstance(got, dict):
+                    # what a user may do with a workspace they were handed: edit it in place, everywhere
+                    _scribble(got)
+                    ctx.fault("scribble_result")
         ctx.check(json.dumps(arg) == snap, "nonmutation", {"cls": "apply_mutates"}, "apply modified the workspace it was given")
         return "applied" if exc is None else "rejected"
 
